@@ -181,7 +181,12 @@ CHECKS = {
          "raised) is evaluated on the real code over the option lattice with pairwise/random coverage; the format pipeline is tied to the "
          "Lean specification reader Spec.File, which decodes the very bytes the writer produced (C02) - so a symmetric writer/reader error is "
          "not invisible. Lean theorems at this level are those of C11 (codecs), C04 (statistics), C06 (row placement) and the page "
-         "building blocks in Props/C01 (definition-level framing, boolean padding, int96 and time-unit arithmetic).",
+         "building blocks in Props/C01 (definition-level framing, boolean padding, int96 and time-unit arithmetic). The writer side of the pipeline "
+         "is inside the model: Impl.WritePage (code-shaped model of write_column's pages: make_definitions, encode_plain, encode_dict, header numbers) "
+         "is tied to the real writer byte for byte on every page of every file the C02 run writes (wpage.chunk), and written_chunk_decodes "
+         "(Props/C02) proves that the specification reader returns exactly the cells that went in, for any pages / v1 / v2 / REQUIRED / OPTIONAL / "
+         "PLAIN / dictionary. range_index_regenerated_now: a written RangeIndex of any start and non-zero step is regenerated with exactly one "
+         "label per row (over the stop expression REGENERATED from api.py).",
          "Trusted: Lean kernel + standard axioms for the component theorems; dtype/metadata restoration (pandas metadata JSON, tz, "
          "categorical flags, numpy views in dataframe.empty) is outside the model and covered by the oracle only.",
          "Lean 4 proof of pipeline components + specification reader correspondence + round-trip oracle", "§6 C01"),
@@ -191,11 +196,17 @@ CHECKS = {
          "offsets / compressed and uncompressed sizes / num_values / null counts describing exactly the bytes present, pages tiling the "
          "chunk, value counts adding up to the row count, every RLE / bit-packed run of every level and dictionary-index stream present in "
          "full inside its page (hybridTight, proved to accept every conforming stream); and the decoded cells must equal the harness's own physical rendering of the "
-         "frame incl. NULL vs NaN per nullability mode. Lean theorems: the building blocks this reader rests on (varint, zigzag, bit "
-         "packing round trips of C11; IDL table obligations of C10).",
+         "frame incl. NULL vs NaN per nullability mode; ColumnMetaData.encodings / encoding_stats must describe the pages present and a summary "
+         "file's num_rows must be the sum over its row groups. Lean theorems: the building blocks this reader rests on (varint, zigzag, bit "
+         "packing round trips of C11; IDL table obligations of C10), and at chunk level written_chunk_decodes: the page loop of Spec.File "
+         "(decodePages, the function run on the real bytes) accepts every chunk the model of write_column lays down (Impl.WritePage; any number "
+         "of pages of any sizes, v1/v2, REQUIRED/OPTIONAL, PLAIN or dictionary with 1/2/4-byte codes), counts the rows written, finds every run "
+         "tightly framed and returns exactly the cells that went in; written_chunk_metadata_describes_pages for encodings / encoding_stats. The model "
+         "is tied to the real writer by the wpage.chunk correspondence: every page payload (decompressed) and header number of every file written "
+         "in the run equals the model's bytes.",
          "Trusted: Lean kernel + standard axioms; the Lean compiler for executing Spec.File; cramjam for decompressing page payloads; "
          "fidelity of Spec.File to the Parquet documents is by construction and reading, no second implementation is installed.",
-         "Lean 4 executable specification (independent reader) + IDL-typed validation + physical-level oracle", "§6 C02"),
+         "Lean 4 proof (writer model's chunks decode to their cells under the specification reader) + byte-exact writer correspondence + executable specification reader with IDL-typed validation", "§6 C02"),
 }
 
 def main():
